@@ -149,6 +149,25 @@ def run(cx):
                 got['normals'] = k
             else:
                 got[show(a1)[:40]] = k
+        # the same element-wise update written as `collection.iter_mut().for_each(|x| *x = transform * *x)`
+        fe_ok = 0
+        for s in b.calls('*::for_each'):
+            coll, clo = cx.arg(s, 0), cx.arg(s, 1)
+            cl = cx.closure_body(clo[1]) if clo[0] == 'closure' else None
+            if cl is None:
+                continue
+            capps = iso_apps(cx, cl, 'transform')
+            sts = [m for m in cl.mutations() if m.kind == 'store' and m.root == 2 and not m.path]
+            if len(capps) == 1 and len(sts) == 1 and match('(param 2)', cx.arg(capps[0][0], 1)) is not None and \
+                    simplify(cl.dag().rvalue(sts[0].data['rv'], sts[0].bb, sts[0].idx)) == cx.call(capps[0][0]):
+                if match('(self points)', coll):
+                    got['points'] = capps[0][1]
+                    fe_ok += 1
+                elif match('(call Iterator::flatten (call Option::iter_mut (self normals)))', coll) or match('(unwrap (self normals))', coll):
+                    got['normals'] = capps[0][1]
+                    fe_ok += 1
+                else:
+                    got[show(coll)[:40]] = capps[0][1]
         cx.ob('KIND', 'PointCloud::transform:members', got == {'points': 'point', 'normals': 'unit'},
               'every point gets the full isometry and every normal (when present) the rotation only', where=b.file, found=str(got))
         # each transformed value is stored back into the element it was read from
@@ -161,7 +180,7 @@ def run(cx):
             e = match('(call Isometry::mul (param transform) $x)', val)
             if e and (tgt == e['x'] or find_same_iter(tgt, e['x'])):
                 okst += 1
-        cx.ob('KIND', 'PointCloud::transform:in-place', okst == 2, 'each element is overwritten by the transform of ITSELF (points and normals)', where=b.file, found=str(okst))
+        cx.ob('KIND', 'PointCloud::transform:in-place', okst + fe_ok == 2, 'each element is overwritten by the transform of ITSELF (points and normals)', where=b.file, found=str(okst))
         no_projections(cx, b, 'transform', 'PointCloud::transform')
     mesh_transform_rule(cx)
     plane_transform_rule(cx)
